@@ -19,7 +19,7 @@ UNIT = Unit(
         Fn(SM, "root_hash", impl="SmtMapping", mode="assume", wrap=SMT_WRAP, **smt_root_hash()),
         Fn(S, "tip908_transactions", impl="UnsealedState", home="C07", implicit_props=("C09", "C07", "C03"), **st_tip908_transactions(),
            rewrites=[("PIPE",), ("SUB", "vv.sort_unstable();", "sort_unstable_bytes(&mut vv);"),
-                     ("SUB", "for tx in self.transactions.iter() {", """let __txs = self.transactions.iter(); let ghost m = self.transactions@;
+                     ("SUBRE", r"for tx in self\.transactions\.iter\(\)([^{]*?)\s*\{", """let __txs = self.transactions.iter()${1}; let ghost m = self.transactions@;
         let ghost ks = choose|ks: Seq<TxHash>| is_enum(m, ks) && __txs@.len() == ks.len() && (forall|i: int| 0 <= i < ks.len() ==> *(#[trigger] __txs@[i]) == m[ks[i]]);
         for tx in __txs {""")],
            injects=[Inject(("before", "vv.push(complex);"), "let ghost lf = complex@; proof { assert(lf =~= leaf_of(*tx)); }"),
@@ -33,7 +33,7 @@ UNIT = Unit(
         Fn(S, "transactions_root_hash", impl="UnsealedState", home="C07", implicit_props=("C09", "C07", "C03"),
            **st_txroot(),
            rewrites=[("SUB", "db.get_tree(Default::default())", "db.get_tree(zero_root())"),
-                     ("SUB", "for txn in self.transactions.iter() {", """let __txs = self.transactions.iter();
+                     ("SUBRE", r"for txn in self\.transactions\.iter\(\)([^{]*?)\s*\{", """let __txs = self.transactions.iter()${1};
                 let ghost ks = choose|ks: Seq<TxHash>| is_enum(self.transactions@, ks) && __txs@.len() == ks.len() && (forall|i: int| 0 <= i < ks.len() ==> *(#[trigger] __txs@[i]) == self.transactions@[ks[i]]);
                 for txn in __txs {""")],
            loops=[Loop(0, binder="it", body_entry="proof { assert(*txn == self.transactions@[ks[it.index@ as int]]); assert(ks.contains(ks[it.index@ as int])); }", invariants=[
